@@ -417,7 +417,17 @@ def s_wrapping(opname):
 
 
 def s_int_from(ip, frame, bb, st, callee, args, dty):
-    return [(st, ip.cast_int(st, args[0], dty))]
+    a = args[0]
+    if isinstance(a, VBool) and a.e[0] != "c":
+        # From<bool>: split on the truth value so the result is a constant on each path
+        w, sg = ip.int_ty(dty)
+        out = []
+        for s2 in ip.branch(st, a.e, True):
+            out.append((s2, cint(1, w, sg)))
+        for s2 in ip.branch(st, a.e, False):
+            out.append((s2, cint(0, w, sg)))
+        return out
+    return [(st, ip.cast_int(st, a, dty))]
 
 
 def s_zero(ip, frame, bb, st, callee, args, dty):
@@ -733,7 +743,7 @@ def _drop_deref_cache(st, ref):
 def c_buffer_write(ip, frame, bb, st, callee, args, dty):
     _drop_deref_cache(st, args[0])
     outs = c_fallible_write(ip, frame, bb, st, callee, args, dty)
-    outs[1][0].ghost["buf-write-failed"] = outs[1][0].ghost.get("buf-write-failed", 0) + 1
+    outs[1][0].ghost["buf-write-failed"] = 1
     return outs
 
 
